@@ -805,6 +805,33 @@ Definition check_decode (l : list sexp) : sexp :=
   | _, _, _ => v_bad "decode-fields"
   end.
 
+(** the cost ValidateCost computes for one connection request with the default field cost 1:
+    1 for the connection, the sub-selection of [edges] ([node]: 1, [cursor]: 0) times maxCount — a
+    multiplier is applied only when it exceeds 1 (validate_cost.go; C14 owns that rule) —, 1 for
+    totalCount, 0 for pageInfo *)
+Definition check_cost (l : list sexp) : sexp :=
+  match dec_dir l, dec_given l, field1 "first" l, field1 "last" l, field "sel" l, field1 "obs" l with
+  | Some d, Some (gf, gl, _, _), Some f, Some la, Some [se; sp; st], Some o =>
+      match as_option as_Z f, as_option as_Z la, as_bool se, as_bool sp, as_bool st, as_option as_Z o with
+      | Some f', Some la', Some se', Some sp', Some st', Some o' =>
+          let w := {| w_first := mk_warg gf f'; w_last := mk_warg gl la'; w_after := WAbsent; w_before := WAbsent |} in
+          match accept_args d w, o' with
+          | None, None => v_ok ["cost"; "cost-validation-error"]
+          | None, Some _ => v_oracle_fail "undefined-argument-accepted" []
+          | Some _, None => v_mismatch "cost-document-rejected" []
+          | Some ar, Some c =>
+              let m := max_edge_count ar in
+              let mult := if (m >? 1)%Z then m else 1%Z in
+              let want := (1 + (if se' then mult else 0) + (if st' then 1 else 0))%Z in
+              if Z.eqb c want then v_ok (["cost"] ++ (if (m >? 1)%Z then ["cost-multiplied"; "nontrivial"] else [])
+                                          ++ match a_first ar, a_last ar with Some _, Some _ => ["cost-first-and-last"] | _, _ => [] end)
+              else v_mismatch "connection-cost" [SZ want]
+          end
+      | _, _, _, _, _, _ => v_bad "cost-decode"
+      end
+  | _, _, _, _, _, _ => v_bad "cost-fields"
+  end.
+
 (** a cursor string too long to put into the case line (only its length is given): the model
     rejects it because of MaxCursorLength alone *)
 Definition check_decode_long (l : list sexp) : sexp :=
@@ -831,6 +858,7 @@ Definition check (c : sexp) : sexp :=
       else if String.eqb t "codec" then check_codec l
       else if String.eqb t "decode" then check_decode l
       else if String.eqb t "decode-long" then check_decode_long l
+      else if String.eqb t "cost" then check_cost l
       else v_bad "unknown-case-kind"
   | None => v_bad "shape"
   end.
